@@ -405,6 +405,8 @@ def _arraybase_units():
                                     u.oblige(p, f"stores_the_given_array[{cls}.{opname}:{pre},{kind}]", goal, w, STORE_REPLAY(attr_name, cls, allowed), info=info)
                 u.cover(f"cover[{cls}.{opname}]", [1] * n_ok, lambda _: True)
             unit("C13", f"{cls}.{opname}")(un)
+            if cls == "Image" and opname == "array.setter":
+                globals()["IMAGE_SETTER_UNIT"] = un
 
         def un_misc(u: Unit, path=path, cls=cls, allowed=allowed, attr_name=attr_name):
             cfg = mk_cfg()
